@@ -125,6 +125,14 @@ CHECKS.update({
          "DESIGN.md §4 C14"),
 })
 
+CHECKS.update({
+ "C15": ("E1-choice-tree",
+         "exhaustive subsets x permutations of a file pool compiled in-process (each twice, fresh hash seeds) and exhaustive source/reference assignments x orders through the real binary under controlled hash seeds; differential oracle",
+         "Every subset of 2..4 (thorough: 5) of 16 inter-dependent files in every permutation: accepted-or-rejected, every file's AST and the multiset of warnings must not depend on the order, and compiling twice gives identical results; at process level 3-file programs in every source/reference assignment and order, each under several HashMap seeds injected through an LD_PRELOAD getrandom shim: diagnostics and generator requests byte-identical across seeds and repetitions, request content per file identical across assignments.",
+         "trusted: shim/hashseed.c controls std's hash seed (verified: same seed same order); the 2^128 seed space is sampled (4 / 32 seeds), everything else is exhaustive within the pool",
+         "DESIGN.md §4 C15"),
+})
+
 NOT_YET = {}
 
 def main():
